@@ -136,6 +136,8 @@ def run(index, tier="quick", seed=0) -> Result:
                     f"forward rotation (`{bad[0][2].src()[:60]}`); the inverse (transpose) is needed - right only for polygons in a coordinate plane")
         else:
             res.ok("FRAME-1", k, sample={"site": k, "uses": [s[0] for s in sites]})
+    from ..parallel import report as _copy1
+    _copy1(res, index, lambda f: f['cls'] in ('Polygon', 'ConvexPolygon') and f['top'] in ('signed_area', 'area', 'perimeter', 'centroid', 'planar_moments_inertia', 'inertia_tensor', '_reorder_verts') or f['func'] in ('_align_points_by_normal', 'translate_inertia_tensor', 'rotate_order2_tensor'))
     return res
 
 
